@@ -15,8 +15,6 @@
 #include <float.h>
 #include <x86intrin.h>
 #include "esl_sse.h"
-#include "esl_avx.h"
-#include "esl_avx512.h"
 #include "esl_vectorops.h"
 #include "esl_matrixops.h"
 
@@ -48,154 +46,202 @@ static uint32_t canon_nan(uint32_t u) { return ((u & 0x7f800000u) == 0x7f800000u
 #define C256(F)   C64(F,0) C64(F,64) C64(F,128) C64(F,192)
 #define C33(F)    C16(F,0) C16(F,16) C1(F,32)
 
-/* ------------------------------------------------------------------ helpers */
-static void op_simd(void)
+/* The AVX2 and AVX-512 parts are compiled in `#pragma GCC target` regions (the file itself needs only -msse4.1), so that on a CPU
+ * without those instruction sets nothing outside the guarded calls contains their instructions. */
+#define LANE8(call)   do { unsigned char v = (unsigned char)(call); h_out("ok %s", h_hex(&v, 1)); return 1; } while (0)
+#define LANE16(call)  do { int16_t v = (call); h_out("ok %s", h_hex(&v, 2)); return 1; } while (0)
+#define LANEF(fn, arg, canon) do { uint32_t u; float s; fn(arg, &s); memcpy(&u, &s, 4); if (canon) u = canon_nan(u); h_out("ok %s", h_hex(&u, 4)); return 1; } while (0)
+#define VEC(field, call, n) do { reg_t r; memset(&r, 0, sizeof r); r.field = (call); h_out("ok %s", h_hex(r.b, n)); return 1; } while (0)
+#define BOOL(call)    do { unsigned char v = (call) ? 1 : 0; h_out("ok %s", h_hex(&v, 1)); return 1; } while (0)
+#define IS(name)      (!strcmp(f, name))
+#define SW256(F) switch (imm) { C256(F) default: return 0; }
+#define SW33(F)  switch (imm) { C33(F)  default: return 0; }
+#define SW32(F)  switch (imm) { C16(F,0) C16(F,16) default: return 0; }
+
+/* ------------------------------------------------------------------ SSE (128-bit) */
+static int simd_sse(const char *f, reg_t *a, reg_t *b, reg_t *m)
 {
-  const char *f = h_arg("f"); reg_t a, b, m, r; float s; int k;
-  if (!f) { h_out("bad-op"); return; }
-  load("a", &a); load("b", &b); load("m", &m);
-  memset(&r, 0, sizeof r);
-#define LANE8(call)   do { unsigned char v = (unsigned char)(call); h_out("ok %s", h_hex(&v, 1)); return; } while (0)
-#define LANE16(call)  do { int16_t v = (call); h_out("ok %s", h_hex(&v, 2)); return; } while (0)
-#define LANEF(fn, arg, canon) do { uint32_t u; fn(arg, &s); memcpy(&u, &s, 4); if (canon) u = canon_nan(u); h_out("ok %s", h_hex(&u, 4)); return; } while (0)
-#define VEC(field, call, n) do { r.field = (call); h_out("ok %s", h_hex(r.b, n)); return; } while (0)
-#define BOOL(call)    do { unsigned char v = (call) ? 1 : 0; h_out("ok %s", h_hex(&v, 1)); return; } while (0)
-  if (!strncmp(f, "esl_sse_", 8)) {
-    if (!strcmp(f, "esl_sse_hmax_epu8"))  LANE8(esl_sse_hmax_epu8(a.i128));
-    if (!strcmp(f, "esl_sse_hmax_epi8"))  LANE8(esl_sse_hmax_epi8(a.i128));
-    if (!strcmp(f, "esl_sse_hmax_epi16")) LANE16(esl_sse_hmax_epi16(a.i128));
-    if (!strcmp(f, "esl_sse_hmax_ps"))    LANEF(esl_sse_hmax_ps, a.f128, 0);
-    if (!strcmp(f, "esl_sse_hmin_ps"))    LANEF(esl_sse_hmin_ps, a.f128, 0);
-    if (!strcmp(f, "esl_sse_hsum_ps"))    LANEF(esl_sse_hsum_ps, a.f128, 1);
-    if (!strcmp(f, "esl_sse_rightshift_int8"))   VEC(i128, esl_sse_rightshift_int8(a.i128, b.i128), 16);
-    if (!strcmp(f, "esl_sse_rightshift_int16"))  VEC(i128, esl_sse_rightshift_int16(a.i128, b.i128), 16);
-    if (!strcmp(f, "esl_sse_rightshiftz_float")) VEC(f128, esl_sse_rightshiftz_float(a.f128), 16);
-    if (!strcmp(f, "esl_sse_leftshiftz_float"))  VEC(f128, esl_sse_leftshiftz_float(a.f128), 16);
-    if (!strcmp(f, "esl_sse_rightshift_ps"))     VEC(f128, esl_sse_rightshift_ps(a.f128, b.f128), 16);
-    if (!strcmp(f, "esl_sse_leftshift_ps"))      VEC(f128, esl_sse_leftshift_ps(a.f128, b.f128), 16);
-    if (!strcmp(f, "esl_sse_any_gt_epu8"))  BOOL(esl_sse_any_gt_epu8(a.i128, b.i128));
-    if (!strcmp(f, "esl_sse_any_gt_epi16")) BOOL(esl_sse_any_gt_epi16(a.i128, b.i128));
-    if (!strcmp(f, "esl_sse_any_gt_ps"))    BOOL(esl_sse_any_gt_ps(a.f128, b.f128));
-    if (!strcmp(f, "esl_sse_select_ps"))    VEC(f128, esl_sse_select_ps(a.f128, b.f128, m.f128), 16);
-  } else if (!strncmp(f, "esl_avx_", 8)) {
-    if (!have_avx) { h_out("unsupported"); return; }
-    if (!strcmp(f, "esl_avx_hmax_epu8"))  LANE8(esl_avx_hmax_epu8(a.i256));
-    if (!strcmp(f, "esl_avx_hmax_epi8"))  LANE8(esl_avx_hmax_epi8(a.i256));
-    if (!strcmp(f, "esl_avx_hmax_epi16")) LANE16(esl_avx_hmax_epi16(a.i256));
-    if (!strcmp(f, "esl_avx_hsum_ps"))    LANEF(esl_avx_hsum_ps, a.f256, 1);
-    if (!strcmp(f, "esl_avx_rightshift_int8"))   VEC(i256, esl_avx_rightshift_int8(a.i256, b.i256), 32);
-    if (!strcmp(f, "esl_avx_rightshift_int16"))  VEC(i256, esl_avx_rightshift_int16(a.i256, b.i256), 32);
-    if (!strcmp(f, "esl_avx_rightshiftz_float")) VEC(f256, esl_avx_rightshiftz_float(a.f256), 32);
-    if (!strcmp(f, "esl_avx_leftshiftz_float"))  VEC(f256, esl_avx_leftshiftz_float(a.f256), 32);
-    if (!strcmp(f, "esl_avx_any_gt_epi16"))      BOOL(esl_avx_any_gt_epi16(a.i256, b.i256));
-  } else if (!strncmp(f, "esl_avx512_", 11)) {
-    if (!have_avx512) { h_out("unsupported"); return; }
-    if (!strcmp(f, "esl_avx512_hmax_epu8"))  LANE8(esl_avx512_hmax_epu8(a.i512));
-    if (!strcmp(f, "esl_avx512_hmax_epi8"))  LANE8(esl_avx512_hmax_epi8(a.i512));
-    if (!strcmp(f, "esl_avx512_hmax_epi16")) LANE16(esl_avx512_hmax_epi16(a.i512));
-    if (!strcmp(f, "esl_avx512_hsum_ps"))    LANEF(esl_avx512_hsum_ps, a.f512, 1);
-    if (!strcmp(f, "esl_avx512_rightshift_int8"))   VEC(i512, esl_avx512_rightshift_int8(a.i512, b.i512), 64);
-    if (!strcmp(f, "esl_avx512_rightshift_int16"))  VEC(i512, esl_avx512_rightshift_int16(a.i512, b.i512), 64);
-    if (!strcmp(f, "esl_avx512_rightshiftz_float")) VEC(f512, esl_avx512_rightshiftz_float(a.f512), 64);
-    if (!strcmp(f, "esl_avx512_leftshiftz_float"))  VEC(f512, esl_avx512_leftshiftz_float(a.f512), 64);
-  }
-  (void) k;
-  h_out("bad-op");
+  if (IS("esl_sse_hmax_epu8"))  LANE8(esl_sse_hmax_epu8(a->i128));
+  if (IS("esl_sse_hmax_epi8"))  LANE8(esl_sse_hmax_epi8(a->i128));
+  if (IS("esl_sse_hmax_epi16")) LANE16(esl_sse_hmax_epi16(a->i128));
+  if (IS("esl_sse_hmax_ps"))    LANEF(esl_sse_hmax_ps, a->f128, 0);
+  if (IS("esl_sse_hmin_ps"))    LANEF(esl_sse_hmin_ps, a->f128, 0);
+  if (IS("esl_sse_hsum_ps"))    LANEF(esl_sse_hsum_ps, a->f128, 1);
+  if (IS("esl_sse_rightshift_int8"))   VEC(i128, esl_sse_rightshift_int8(a->i128, b->i128), 16);
+  if (IS("esl_sse_rightshift_int16"))  VEC(i128, esl_sse_rightshift_int16(a->i128, b->i128), 16);
+  if (IS("esl_sse_rightshiftz_float")) VEC(f128, esl_sse_rightshiftz_float(a->f128), 16);
+  if (IS("esl_sse_leftshiftz_float"))  VEC(f128, esl_sse_leftshiftz_float(a->f128), 16);
+  if (IS("esl_sse_rightshift_ps"))     VEC(f128, esl_sse_rightshift_ps(a->f128, b->f128), 16);
+  if (IS("esl_sse_leftshift_ps"))      VEC(f128, esl_sse_leftshift_ps(a->f128, b->f128), 16);
+  if (IS("esl_sse_any_gt_epu8"))  BOOL(esl_sse_any_gt_epu8(a->i128, b->i128));
+  if (IS("esl_sse_any_gt_epi16")) BOOL(esl_sse_any_gt_epi16(a->i128, b->i128));
+  if (IS("esl_sse_any_gt_ps"))    BOOL(esl_sse_any_gt_ps(a->f128, b->f128));
+  if (IS("esl_sse_select_ps"))    VEC(f128, esl_sse_select_ps(a->f128, b->f128, m->f128), 16);
+  return 0;
 }
 
-/* ------------------------------------------------------------------ raw intrinsics */
+/* raw 128-bit intrinsics; returns the number of result bytes in r (0 = unknown) */
+static int intr_sse(const char *f, int imm, reg_t *a, reg_t *b, reg_t *m, reg_t *r)
+{
+  int32_t iv; int i;
+  if (IS("_mm_srli_si128")) {
+#define F1(i) r->i128 = _mm_srli_si128(a->i128, i)
+    SW33(F1) return 16; }
+  if (IS("_mm_slli_si128")) {
+#define F2(i) r->i128 = _mm_slli_si128(a->i128, i)
+    SW33(F2) return 16; }
+  if (IS("_mm_shuffle_epi32")) {
+#define F4(i) r->i128 = _mm_shuffle_epi32(a->i128, i)
+    SW256(F4) return 16; }
+  if (IS("_mm_shufflelo_epi16")) {
+#define F6(i) r->i128 = _mm_shufflelo_epi16(a->i128, i)
+    SW256(F6) return 16; }
+  if (IS("_mm_shuffle_ps")) {
+#define F8(i) r->f128 = _mm_shuffle_ps(a->f128, b->f128, i)
+    SW256(F8) return 16; }
+  if (IS("_mm_srli_epi16")) {
+#define F10(i) r->i128 = _mm_srli_epi16(a->i128, i)
+    SW33(F10) return 16; }
+  if (IS("_mm_srli_epi32")) {
+#define F11(i) r->i128 = _mm_srli_epi32(a->i128, i)
+    SW33(F11) return 16; }
+  if (IS("_mm_alignr_epi8")) {
+#define F13(i) r->i128 = _mm_alignr_epi8(a->i128, b->i128, i)
+    SW33(F13) return 16; }
+  if (IS("_mm_move_ss"))       { r->f128 = _mm_move_ss(a->f128, b->f128); return 16; }
+  if (IS("_mm_max_epu8"))      { r->i128 = _mm_max_epu8(a->i128, b->i128); return 16; }
+  if (IS("_mm_max_epi8"))      { r->i128 = _mm_max_epi8(a->i128, b->i128); return 16; }
+  if (IS("_mm_max_epi16"))     { r->i128 = _mm_max_epi16(a->i128, b->i128); return 16; }
+  if (IS("_mm_or_si128"))      { r->i128 = _mm_or_si128(a->i128, b->i128); return 16; }
+  if (IS("_mm_xor_si128"))     { r->i128 = _mm_xor_si128(a->i128, b->i128); return 16; }
+  if (IS("_mm_and_si128"))     { r->i128 = _mm_and_si128(a->i128, b->i128); return 16; }
+  if (IS("_mm_cmpeq_epi8"))    { r->i128 = _mm_cmpeq_epi8(a->i128, b->i128); return 16; }
+  if (IS("_mm_cmpgt_epi16"))   { r->i128 = _mm_cmpgt_epi16(a->i128, b->i128); return 16; }
+  if (IS("_mm_movemask_epi8")) { iv = _mm_movemask_epi8(a->i128); memcpy(r->b, &iv, 4); return 4; }
+  if (IS("_mm_movemask_ps"))   { iv = _mm_movemask_ps(a->f128);   memcpy(r->b, &iv, 4); return 4; }
+  if (IS("_mm_max_ps"))        { r->f128 = _mm_max_ps(a->f128, b->f128); return 16; }
+  if (IS("_mm_min_ps"))        { r->f128 = _mm_min_ps(a->f128, b->f128); return 16; }
+  if (IS("_mm_cmpgt_ps"))      { r->f128 = _mm_cmpgt_ps(a->f128, b->f128); return 16; }
+  if (IS("_mm_blendv_ps"))     { r->f128 = _mm_blendv_ps(a->f128, b->f128, m->f128); return 16; }
+  if (IS("_mm_add_ps")) {
+    r->f128 = _mm_add_ps(a->f128, b->f128);
+    for (i = 0; i < 16; i += 4) { uint32_t u; memcpy(&u, r->b + i, 4); u = canon_nan(u); memcpy(r->b + i, &u, 4); }
+    return 16; }
+  return 0;
+}
+
+/* ------------------------------------------------------------------ AVX2 (256-bit) */
+#pragma GCC push_options
+#pragma GCC target("avx2")
+#include "esl_avx.h"
+static int simd_avx(const char *f, reg_t *a, reg_t *b)
+{
+  if (IS("esl_avx_hmax_epu8"))  LANE8(esl_avx_hmax_epu8(a->i256));
+  if (IS("esl_avx_hmax_epi8"))  LANE8(esl_avx_hmax_epi8(a->i256));
+  if (IS("esl_avx_hmax_epi16")) LANE16(esl_avx_hmax_epi16(a->i256));
+  if (IS("esl_avx_hsum_ps"))    LANEF(esl_avx_hsum_ps, a->f256, 1);
+  if (IS("esl_avx_rightshift_int8"))   VEC(i256, esl_avx_rightshift_int8(a->i256, b->i256), 32);
+  if (IS("esl_avx_rightshift_int16"))  VEC(i256, esl_avx_rightshift_int16(a->i256, b->i256), 32);
+  if (IS("esl_avx_rightshiftz_float")) VEC(f256, esl_avx_rightshiftz_float(a->f256), 32);
+  if (IS("esl_avx_leftshiftz_float"))  VEC(f256, esl_avx_leftshiftz_float(a->f256), 32);
+  if (IS("esl_avx_any_gt_epi16"))      BOOL(esl_avx_any_gt_epi16(a->i256, b->i256));
+  return 0;
+}
+static int intr_avx(const char *f, int imm, reg_t *a, reg_t *b, reg_t *r)
+{
+  int32_t iv; int i;
+  if (IS("_mm256_srli_si256")) {
+#define F3(i) r->i256 = _mm256_srli_si256(a->i256, i)
+    SW33(F3) return 32; }
+  if (IS("_mm256_shuffle_epi32")) {
+#define F5(i) r->i256 = _mm256_shuffle_epi32(a->i256, i)
+    SW256(F5) return 32; }
+  if (IS("_mm256_shufflelo_epi16")) {
+#define F7(i) r->i256 = _mm256_shufflelo_epi16(a->i256, i)
+    SW256(F7) return 32; }
+  if (IS("_mm256_permute2x128_si256")) {
+#define F12(i) r->i256 = _mm256_permute2x128_si256(a->i256, b->i256, i)
+    SW256(F12) return 32; }
+  if (IS("_mm256_alignr_epi8")) {
+#define F14(i) r->i256 = _mm256_alignr_epi8(a->i256, b->i256, i)
+    SW33(F14) return 32; }
+  if (IS("_mm256_max_epu8"))    { r->i256 = _mm256_max_epu8(a->i256, b->i256); return 32; }
+  if (IS("_mm256_max_epi8"))    { r->i256 = _mm256_max_epi8(a->i256, b->i256); return 32; }
+  if (IS("_mm256_max_epi16"))   { r->i256 = _mm256_max_epi16(a->i256, b->i256); return 32; }
+  if (IS("_mm256_or_si256"))    { r->i256 = _mm256_or_si256(a->i256, b->i256); return 32; }
+  if (IS("_mm256_cmpgt_epi16")) { r->i256 = _mm256_cmpgt_epi16(a->i256, b->i256); return 32; }
+  if (IS("_mm256_movemask_epi8")) { iv = _mm256_movemask_epi8(a->i256); memcpy(r->b, &iv, 4); return 4; }
+  if (IS("_mm256_add_ps")) {
+    r->f256 = _mm256_add_ps(a->f256, b->f256);
+    for (i = 0; i < 32; i += 4) { uint32_t u; memcpy(&u, r->b + i, 4); u = canon_nan(u); memcpy(r->b + i, &u, 4); }
+    return 32; }
+  return 0;
+}
+#pragma GCC pop_options
+
+/* ------------------------------------------------------------------ AVX-512 */
+#pragma GCC push_options
+#pragma GCC target("avx512f,avx512bw,avx512dq")
+#include "esl_avx512.h"
+static int simd_avx512(const char *f, reg_t *a, reg_t *b)
+{
+  if (IS("esl_avx512_hmax_epu8"))  LANE8(esl_avx512_hmax_epu8(a->i512));
+  if (IS("esl_avx512_hmax_epi8"))  LANE8(esl_avx512_hmax_epi8(a->i512));
+  if (IS("esl_avx512_hmax_epi16")) LANE16(esl_avx512_hmax_epi16(a->i512));
+  if (IS("esl_avx512_hsum_ps"))    LANEF(esl_avx512_hsum_ps, a->f512, 1);
+  if (IS("esl_avx512_rightshift_int8"))   VEC(i512, esl_avx512_rightshift_int8(a->i512, b->i512), 64);
+  if (IS("esl_avx512_rightshift_int16"))  VEC(i512, esl_avx512_rightshift_int16(a->i512, b->i512), 64);
+  if (IS("esl_avx512_rightshiftz_float")) VEC(f512, esl_avx512_rightshiftz_float(a->f512), 64);
+  if (IS("esl_avx512_leftshiftz_float"))  VEC(f512, esl_avx512_leftshiftz_float(a->f512), 64);
+  return 0;
+}
+static int intr_avx512(const char *f, int imm, unsigned kmask, reg_t *a, reg_t *b, reg_t *r)
+{
+  int i;
+  if (IS("_mm512_shuffle_ps")) {
+#define F9(i) r->f512 = _mm512_shuffle_ps(a->f512, b->f512, i)
+    SW256(F9) return 64; }
+  if (IS("_mm512_alignr_epi8")) {
+#define F15(i) r->i512 = _mm512_alignr_epi8(a->i512, b->i512, i)
+    SW33(F15) return 64; }
+  if (IS("_mm512_shuffle_f32x4")) {
+#define F16(i) r->f512 = _mm512_shuffle_f32x4(a->f512, b->f512, i)
+    SW256(F16) return 64; }
+  if (IS("_mm512_maskz_shuffle_i32x4")) {
+#define F17(i) r->i512 = _mm512_maskz_shuffle_i32x4((__mmask16) kmask, a->i512, b->i512, i)
+    SW256(F17) return 64; }
+  if (IS("_mm512_extracti32x8_epi32")) { r->i256 = imm ? _mm512_extracti32x8_epi32(a->i512, 1) : _mm512_extracti32x8_epi32(a->i512, 0); return 32; }
+  if (IS("_mm512_extractf32x8_ps"))    { r->f256 = imm ? _mm512_extractf32x8_ps(a->f512, 1) : _mm512_extractf32x8_ps(a->f512, 0); return 32; }
+  if (IS("_mm512_or_si512"))           { r->i512 = _mm512_or_si512(a->i512, b->i512); return 64; }
+  if (IS("_mm512_add_ps")) {
+    r->f512 = _mm512_add_ps(a->f512, b->f512);
+    for (i = 0; i < 64; i += 4) { uint32_t u; memcpy(&u, r->b + i, 4); u = canon_nan(u); memcpy(r->b + i, &u, 4); }
+    return 64; }
+  return 0;
+}
+#pragma GCC pop_options
+
+static void op_simd(void)
+{
+  const char *f = h_arg("f"); reg_t a, b, m; int done = 0;
+  if (!f) { h_out("bad-op"); return; }
+  load("a", &a); load("b", &b); load("m", &m);
+  if      (!strncmp(f, "esl_sse_", 8))     done = simd_sse(f, &a, &b, &m);
+  else if (!strncmp(f, "esl_avx_", 8))   { if (!have_avx)    { h_out("unsupported"); return; } done = simd_avx(f, &a, &b); }
+  else if (!strncmp(f, "esl_avx512_", 11)) { if (!have_avx512) { h_out("unsupported"); return; } done = simd_avx512(f, &a, &b); }
+  if (!done) h_out("bad-op");
+}
+
 static void op_intr(void)
 {
-  const char *f = h_arg("f"); reg_t a, b, m, r; int imm = (int) h_argi("imm", 0); unsigned kmask = (unsigned) h_argu("k", 0);
-  int n = 16; int32_t iv;
+  const char *f = h_arg("f"); reg_t a, b, m, r; int imm = (int) h_argi("imm", 0); unsigned kmask = (unsigned) h_argu("k", 0); int n = 0;
   if (!f) { h_out("bad-op"); return; }
   load("a", &a); load("b", &b); load("m", &m);
   memset(&r, 0, sizeof r);
-  if (!strncmp(f, "_mm256_", 7)) { n = 32; if (!have_avx) { h_out("unsupported"); return; } }
-  if (!strncmp(f, "_mm512_", 7)) { n = 64; if (!have_avx512) { h_out("unsupported"); return; } }
-#define SW256(F) switch (imm) { C256(F) default: h_out("bad-op"); return; }
-#define SW33(F)  switch (imm) { C33(F)  default: h_out("bad-op"); return; }
-  if      (!strcmp(f, "_mm_srli_si128"))     {
-#define F1(i) r.i128 = _mm_srli_si128(a.i128, i)
-    SW33(F1) }
-  else if (!strcmp(f, "_mm_slli_si128"))     {
-#define F2(i) r.i128 = _mm_slli_si128(a.i128, i)
-    SW33(F2) }
-  else if (!strcmp(f, "_mm256_srli_si256"))  {
-#define F3(i) r.i256 = _mm256_srli_si256(a.i256, i)
-    SW33(F3) }
-  else if (!strcmp(f, "_mm_shuffle_epi32"))  {
-#define F4(i) r.i128 = _mm_shuffle_epi32(a.i128, i)
-    SW256(F4) }
-  else if (!strcmp(f, "_mm256_shuffle_epi32")) {
-#define F5(i) r.i256 = _mm256_shuffle_epi32(a.i256, i)
-    SW256(F5) }
-  else if (!strcmp(f, "_mm_shufflelo_epi16")) {
-#define F6(i) r.i128 = _mm_shufflelo_epi16(a.i128, i)
-    SW256(F6) }
-  else if (!strcmp(f, "_mm256_shufflelo_epi16")) {
-#define F7(i) r.i256 = _mm256_shufflelo_epi16(a.i256, i)
-    SW256(F7) }
-  else if (!strcmp(f, "_mm_shuffle_ps")) {
-#define F8(i) r.f128 = _mm_shuffle_ps(a.f128, b.f128, i)
-    SW256(F8) }
-  else if (!strcmp(f, "_mm512_shuffle_ps")) {
-#define F9(i) r.f512 = _mm512_shuffle_ps(a.f512, b.f512, i)
-    SW256(F9) }
-  else if (!strcmp(f, "_mm_srli_epi16")) {
-#define F10(i) r.i128 = _mm_srli_epi16(a.i128, i)
-    SW33(F10) }
-  else if (!strcmp(f, "_mm_srli_epi32")) {
-#define F11(i) r.i128 = _mm_srli_epi32(a.i128, i)
-    SW33(F11) }
-  else if (!strcmp(f, "_mm256_permute2x128_si256")) {
-#define F12(i) r.i256 = _mm256_permute2x128_si256(a.i256, b.i256, i)
-    SW256(F12) }
-  else if (!strcmp(f, "_mm_alignr_epi8")) {
-#define F13(i) r.i128 = _mm_alignr_epi8(a.i128, b.i128, i)
-    SW33(F13) }
-  else if (!strcmp(f, "_mm256_alignr_epi8")) {
-#define F14(i) r.i256 = _mm256_alignr_epi8(a.i256, b.i256, i)
-    SW33(F14) }
-  else if (!strcmp(f, "_mm512_alignr_epi8")) {
-#define F15(i) r.i512 = _mm512_alignr_epi8(a.i512, b.i512, i)
-    SW33(F15) }
-  else if (!strcmp(f, "_mm512_shuffle_f32x4")) {
-#define F16(i) r.f512 = _mm512_shuffle_f32x4(a.f512, b.f512, i)
-    SW256(F16) }
-  else if (!strcmp(f, "_mm512_maskz_shuffle_i32x4")) {
-#define F17(i) r.i512 = _mm512_maskz_shuffle_i32x4((__mmask16) kmask, a.i512, b.i512, i)
-    SW256(F17) }
-  else if (!strcmp(f, "_mm512_extracti32x8_epi32")) { r.i256 = imm ? _mm512_extracti32x8_epi32(a.i512, 1) : _mm512_extracti32x8_epi32(a.i512, 0); n = 32; }
-  else if (!strcmp(f, "_mm512_extractf32x8_ps"))    { r.f256 = imm ? _mm512_extractf32x8_ps(a.f512, 1) : _mm512_extractf32x8_ps(a.f512, 0); n = 32; }
-  else if (!strcmp(f, "_mm_move_ss"))       r.f128 = _mm_move_ss(a.f128, b.f128);
-  else if (!strcmp(f, "_mm_max_epu8"))      r.i128 = _mm_max_epu8(a.i128, b.i128);
-  else if (!strcmp(f, "_mm_max_epi8"))      r.i128 = _mm_max_epi8(a.i128, b.i128);
-  else if (!strcmp(f, "_mm_max_epi16"))     r.i128 = _mm_max_epi16(a.i128, b.i128);
-  else if (!strcmp(f, "_mm256_max_epu8"))   r.i256 = _mm256_max_epu8(a.i256, b.i256);
-  else if (!strcmp(f, "_mm256_max_epi8"))   r.i256 = _mm256_max_epi8(a.i256, b.i256);
-  else if (!strcmp(f, "_mm256_max_epi16"))  r.i256 = _mm256_max_epi16(a.i256, b.i256);
-  else if (!strcmp(f, "_mm_or_si128"))      r.i128 = _mm_or_si128(a.i128, b.i128);
-  else if (!strcmp(f, "_mm256_or_si256"))   r.i256 = _mm256_or_si256(a.i256, b.i256);
-  else if (!strcmp(f, "_mm512_or_si512"))   r.i512 = _mm512_or_si512(a.i512, b.i512);
-  else if (!strcmp(f, "_mm_xor_si128"))     r.i128 = _mm_xor_si128(a.i128, b.i128);
-  else if (!strcmp(f, "_mm_and_si128"))     r.i128 = _mm_and_si128(a.i128, b.i128);
-  else if (!strcmp(f, "_mm_cmpeq_epi8"))    r.i128 = _mm_cmpeq_epi8(a.i128, b.i128);
-  else if (!strcmp(f, "_mm_cmpgt_epi16"))   r.i128 = _mm_cmpgt_epi16(a.i128, b.i128);
-  else if (!strcmp(f, "_mm256_cmpgt_epi16")) r.i256 = _mm256_cmpgt_epi16(a.i256, b.i256);
-  else if (!strcmp(f, "_mm_movemask_epi8"))    { iv = _mm_movemask_epi8(a.i128);    memcpy(r.b, &iv, 4); n = 4; }
-  else if (!strcmp(f, "_mm256_movemask_epi8")) { iv = _mm256_movemask_epi8(a.i256); memcpy(r.b, &iv, 4); n = 4; }
-  else if (!strcmp(f, "_mm_movemask_ps"))      { iv = _mm_movemask_ps(a.f128);      memcpy(r.b, &iv, 4); n = 4; }
-  else if (!strcmp(f, "_mm_max_ps"))        r.f128 = _mm_max_ps(a.f128, b.f128);
-  else if (!strcmp(f, "_mm_min_ps"))        r.f128 = _mm_min_ps(a.f128, b.f128);
-  else if (!strcmp(f, "_mm_cmpgt_ps"))      r.f128 = _mm_cmpgt_ps(a.f128, b.f128);
-  else if (!strcmp(f, "_mm_blendv_ps"))     r.f128 = _mm_blendv_ps(a.f128, b.f128, m.f128);
-  else if (!strcmp(f, "_mm_add_ps") || !strcmp(f, "_mm256_add_ps") || !strcmp(f, "_mm512_add_ps")) {
-    int i; uint32_t u;
-    if (n == 16) r.f128 = _mm_add_ps(a.f128, b.f128); else if (n == 32) r.f256 = _mm256_add_ps(a.f256, b.f256); else r.f512 = _mm512_add_ps(a.f512, b.f512);
-    for (i = 0; i < n; i += 4) { memcpy(&u, r.b + i, 4); u = canon_nan(u); memcpy(r.b + i, &u, 4); }
-  }
-  else { h_out("bad-op"); return; }
+  if      (!strncmp(f, "_mm256_", 7)) { if (!have_avx)    { h_out("unsupported"); return; } n = intr_avx(f, imm, &a, &b, &r); }
+  else if (!strncmp(f, "_mm512_", 7)) { if (!have_avx512) { h_out("unsupported"); return; } n = intr_avx512(f, imm, kmask, &a, &b, &r); }
+  else                                  n = intr_sse(f, imm, &a, &b, &m, &r);
+  if (n <= 0) { h_out("bad-op"); return; }
   h_out("ok %s", h_hex(r.b, n));
 }
 
